@@ -1,6 +1,8 @@
 import Flowjaxv.Proofs.Params
 import Flowjaxv.Proofs.Wrappers
 import Flowjaxv.Proofs.FamiliesGen
+import Flowjaxv.Proofs.TriangularGen
+import Flowjaxv.Proofs.PermGen
 /-!
 # C11 — constrained parameters stay valid for every unconstrained value
 
@@ -465,5 +467,86 @@ theorem gen_ctor_instance :
   · rw [gen_df_rejects_iff]; exact ⟨0, by simp, le_rfl⟩
 
 end FamiliesGen
+section TriangularGen
+/-! ## TriangularAffine REGENERATED (`Gen/TriangularGen.lean`): the constrained diagonal and the constructor's check on the generated
+definitions (`__init__` in exception-valued form, `_to_triangular`, `unwrap` = `TriGen.unwrap` over the generated wrapper bodies) -/
+
+/-- `tri_diag_pos` on the generated `_to_triangular` / `BijectionReparam.unwrap`: for a square `arr` and raw diagonal parameters of
+matching length the diagonal of the unwrapped `triangular` is `softplus raw`, entrywise strictly positive — either orientation, any
+dimension, every raw value. -/
+theorem gen_tri_diag_pos (lower : Bool) (raw : List ℝ) (arr : List (List ℝ)) (loc : List ℝ)
+    (hsq : ∀ r ∈ arr, r.length = arr.length) (hl : raw.length = arr.length) :
+    ∃ d : List ℝ, diagEntries (TriGen.unwrap (TriGen.ofRaw lower raw arr loc)).triangular = d.map some ∧
+      d.length = arr.length ∧ ∀ x ∈ d, 0 < x := by
+  have e : (TriGen.unwrap (TriGen.ofRaw lower raw arr loc)).triangular
+      = (TriGenPf.toModel (TriGen.unwrap (TriGen.ofRaw lower raw arr loc))).triangular := rfl
+  rw [e, TriGenPf.gen_ofRaw_eq lower raw arr loc (fun r hr => by rw [hsq r hr, hl])]
+  exact tri_diag_pos lower raw arr hsq hl
+
+/-- the generated `_to_triangular` is the hand model's entry formula (so `tri_entries` is about it): `diagᵢ` on the diagonal, `arr`'s
+entry strictly inside the chosen triangle, 0 in the other — `tril(k=-1)` / `triu(k=1)` exactly. -/
+theorem gen_tri_to_triangular (lower : Bool) (diag : List ℝ) (arr : List (List ℝ)) (h : ∀ r ∈ arr, r.length ≤ diag.length) :
+    TriangularAffine.toTriangular lower diag arr = toTriangular lower diag arr :=
+  TriGenPf.gen_toTriangular_eq lower diag arr h
+
+/-- the generated constructor's check: accepted exactly for a rank-2 array with as many rows as columns (and a `loc` of that size
+or size 1); everything else — a vector, a rank-3 array, a non-square matrix — is a `ValueError`, never another exception. -/
+theorem gen_tri_ctor_accepts_iff (loc : List ℝ) (arr : TriPrims.NdArr ℝ) (lower : Bool) :
+    ((∃ s, TriangularAffine.init loc arr lower = .ok s) ↔
+      arr.ndim = 2 ∧ arr.shapeGet 0 = arr.shapeGet 1 ∧ (loc.length = arr.shapeGet 0 ∨ loc.length = 1)) ∧
+    (∀ e, TriangularAffine.init loc arr lower = .error e → e = .valueError) :=
+  ⟨TriGenPf.gen_init_accepts_iff loc arr lower, TriGenPf.gen_init_error_class loc arr lower⟩
+
+/-- … and whenever the hand constructor model `Tri.init` accepts, the generated constructor accepts and unwraps to the same object -/
+theorem gen_tri_ctor_eq_model (lower : Bool) (m : List (List ℝ)) (loc : List ℝ) (hl : loc.length = m.length)
+    {t : Tri.TriAffine ℝ} (h : Tri.init lower m loc = some t) :
+    ∃ s, TriangularAffine.init loc (.mat m) lower = .ok s ∧ TriGenPf.toModel (TriGen.unwrap s) = t ∧ s.shape = [m.length] :=
+  TriGenPf.gen_init_eq_model lower m loc hl h
+
+/-- non-vacuity: a 2 × 2 matrix is accepted, a 2 × 3 matrix, a vector and a mismatching `loc` are rejected -/
+theorem gen_tri_ctor_instance :
+    (∃ s, TriangularAffine.init [0, 0] (.mat [[1, 2], [3, (4 : ℝ)]]) true = .ok s) ∧
+    TriangularAffine.init [0, 0] (.mat [[1, 2, 3], [4, 5, (6 : ℝ)]]) true = .error .valueError ∧
+    TriangularAffine.init [0, 0] (.vec [1, (2 : ℝ)]) true = .error .valueError ∧
+    TriangularAffine.init [0, 0, 0] (.mat [[1, 2], [3, (4 : ℝ)]]) true = .error .valueError := by
+  refine ⟨(TriGenPf.gen_init_accepts_iff _ _ _).mpr (by simp [TriPrims.NdArr.ndim, TriPrims.NdArr.shapeGet, TriPrims.NdArr.shape]),
+    ?_, ?_, ?_⟩ <;>
+  simp [TriangularAffine.init, TriPrims.NdArr.ndim, TriPrims.NdArr.shapeGet, TriPrims.NdArr.shape, TriPrims.broadcastTo,
+    TriPrims.NdArr.asMat, Except.bind]
+
+end TriangularGen
+
+section PermGen
+/-! ## Permute REGENERATED (`Gen/PermGen.lean`): the constructor's rejection on the generated `__init__` -/
+open PermPrims Gen.PermGen
+
+/-- `reject_iff_not_permutation` on the generated constructor: it raises (the `eqx.error_if` error) IFF the flattened entries are not a
+permutation of `0 … size−1` — any rank, shape, size; in particular the predicate it hands to `error_if` is the hand model's
+`permuteRejects`. -/
+theorem gen_reject_iff_not_permutation (p : IArr) :
+    (Permute.init p = .error .runtimeError ↔ ¬ p.data.Perm ((List.range p.data.length).map Int.ofNat)) ∧
+    ((ne (sort (ravel p)) (arange (size p))).any id = permuteRejects p.data) := by
+  refine ⟨?_, PermGenPf.errorIf_pred p⟩
+  rw [← reject_iff_not_permutation]
+  have := PermGenPf.gen_init_accepts_iff p
+  cases hr : permuteRejects p.data
+  · rw [hr] at this
+    obtain ⟨s, hs⟩ := this.mpr rfl
+    simp [hs]
+  · rw [hr] at this
+    simp only [reduceCtorEq, iff_false, not_exists] at this
+    cases hi : Permute.init p with
+    | ok s => exact absurd hi (this s)
+    | error e => cases e; simp
+
+/-- non-vacuity: out-of-range, negative and repeated entries are rejected, a valid 2 × 2 array is accepted -/
+theorem gen_permute_reject_instance :
+    Permute.init ⟨[3], [0, 1, 3]⟩ = .error .runtimeError ∧ Permute.init ⟨[3], [0, -1, 2]⟩ = .error .runtimeError ∧
+    Permute.init ⟨[2, 2], [0, 1, 1, 2]⟩ = .error .runtimeError ∧ ¬ Permute.init ⟨[2, 2], [3, 1, 0, 2]⟩ = .error .runtimeError :=
+  ⟨(gen_reject_iff_not_permutation _).1.mpr (by decide), (gen_reject_iff_not_permutation _).1.mpr (by decide),
+   (gen_reject_iff_not_permutation _).1.mpr (by decide),
+   fun h => absurd (show List.Perm [3, 1, 0, 2] ((List.range 4).map Int.ofNat) by decide) ((gen_reject_iff_not_permutation _).1.mp h)⟩
+
+end PermGen
 
 end C11
